@@ -90,21 +90,27 @@ def isort {α} (lt : α → α → Bool) : List α → List α
       | y :: ys => if lt x y then x :: y :: ys else y :: ins x ys
     ins x (isort lt xs)
 
+/-- canonical order of the reply: numbers ascending, a missing value (NaN) last -/
+def keyLt (a b : XR) : Bool := if a.isNan then false else if b.isNan then true else XR.lt a b
+
 def locLt (byId : Bool) (a b : Loc × XR) : Bool :=
-  if byId then XR.lt a.2 b.2      -- the id after the assignment loop (= the id read, when there is one)
-  else XR.lt a.1.lat b.1.lat || (a.1.lat == b.1.lat &&
-    (XR.lt a.1.lon b.1.lon || (a.1.lon == b.1.lon && XR.lt a.1.elev b.1.elev)))
+  if byId then keyLt a.2 b.2      -- the id after the assignment loop (= the id read, when there is one)
+  else keyLt a.1.lat b.1.lat || (decide (a.1.lat = b.1.lat) &&
+    (keyLt a.1.lon b.1.lon || (decide (a.1.lon = b.1.lon) && keyLt a.1.elev b.1.elev)))
 
 def showOpt (b : Bool) (v : List XR) : String := if b then showVec v else "none"
 
 def joinWords (ws : List (List Char)) : List Char := (ws.intersperse [' ']).flatten
 
-def render (P : Parsed) : String :=
-  let pairs := isort (locLt P.hasId) (P.locs.zip (assignIds P.locs))
+def render (P0 : Parsed) : String :=
+  -- a missing time / lead time (NaN): `sorted()` of a set that holds a NaN has no specified order; the reply lists
+  -- the NaN last (the harness does the same with the reader's arrays); without a NaN this is the identity
+  let P : Parsed := { P0 with times := isort keyLt P0.times, leads := isort keyLt P0.leads }
+  let pairs := isort (locLt P.hasId) (P.locs.zip (assignIds P.hasId P.locs))
   let locs := pairs.map (·.1)
   let ids := if P.hasId then pairs.map (·.2) else isort XR.lt (pairs.map (·.2))
   let loc := if locs.isEmpty then "-" else
-    ",".intercalate (locs.map fun l => s!"{nz l.lat}:{nz l.lon}:{nz l.elev}")
+    ",".intercalate (locs.map fun l => s!"{l.lat}:{l.lon}:{l.elev}")
   let oth := if P.others.isEmpty then "-" else
     ";".intercalate ((isort (fun a b => decide (a.1 < b.1)) (P.others.map fun n => (hex n, n))).map fun (h, n) =>
       s!"{h}={showVec (P.arr locs (.other n))}")
